@@ -200,3 +200,16 @@ def check_live_iteration(t, snap=None, what="result"):
                 raise Violation("live-iteration", "%s: iter(axis=%r) yielded "
                                 "%d of %d vectors" % (what, axis, k,
                                                       len(snap[key])))
+
+
+def same_data(a, b):
+    """Equality of plain (JSON-like) data in which true, 1 and 1.0 are three
+    different values, as they are in a JSON text."""
+    if isinstance(a, dict) and isinstance(b, dict):
+        return set(a) == set(b) and all(same_data(a[k], b[k]) for k in a)
+    if isinstance(a, (list, tuple)) and isinstance(b, (list, tuple)):
+        return len(a) == len(b) and all(same_data(x, y)
+                                        for x, y in zip(a, b))
+    if type(a) is not type(b):
+        return False
+    return a == b
